@@ -673,3 +673,132 @@ Proof.
   unfold spw_decide. apply existsb_ext. intros axis. unfold sp_axis_profile. simpl.
   destruct (sp_axis_weak o axis); reflexivity.
 Qed.
+
+(* ---------------------------------------------------------------------------------------------- *)
+(* 10. final forms used by Properties/C03.v and Properties/C11.v                                   *)
+
+Lemma forallb_same_elems {A} (g : A -> bool) l l' : (forall x, In x l <-> In x l') -> forallb g l = forallb g l'.
+Proof.
+  intros E. apply eq_true_iff_eq. rewrite !forallb_forall. split; intros H x Hx; apply H; now apply E.
+Qed.
+
+(* only the SET of stored orders matters (multiplicities, repetitions, storage order do not) *)
+Theorem spw_decide_set_ext alts p p' : (forall o, In o p <-> In o p') -> spw_decide alts p = spw_decide alts p'.
+Proof.
+  intros E. unfold spw_decide. apply existsb_ext. intros axis. unfold sp_axis_profile.
+  now apply forallb_same_elems.
+Qed.
+
+Theorem sp_decide_set_ext alts rs rs' : (forall r, In r rs <-> In r rs') -> sp_decide alts rs = sp_decide alts rs'.
+Proof.
+  intros E. unfold sp_decide. apply spw_decide_set_ext. intros o. rewrite !in_map_iff.
+  split; intros (r & <- & Hr); exists r; (split; [reflexivity|now apply E]).
+Qed.
+
+Theorem check_axis_correct_once alts p axis : NoDup alts -> Forall (complete_on alts) p ->
+  (spw_check_axis alts p axis = true <->
+   (NoDup axis /\ forall a, In a axis <-> In a alts) /\
+   forall o, In o p -> forall k, contiguous (concat (firstn k o)) axis).
+Proof.
+  intros Hnd Hc. rewrite (check_axis_correct alts p axis Hnd Hc), (perm_iff_exactly_once alts axis Hnd).
+  reflexivity.
+Qed.
+
+Theorem axis_function_correct d p axis : d = DTsoc \/ d = DTtoc -> NoDup axis -> Forall (complete_on axis) p ->
+  exists b, is_single_peaked_axis_model d p axis = Ok b /\
+            (b = true <-> forall o, In o p -> forall k, contiguous (concat (firstn k o)) axis).
+Proof. intros [->| ->]; apply axis_test_profile_correct; reflexivity. Qed.
+
+Theorem decider_models_correct d alts p : d = DTsoc \/ d = DTtoc -> NoDup alts -> Forall (complete_on alts) p ->
+  exists b, is_single_peaked_pq_tree_model d alts p = Ok b /\ is_single_peaked_ILP_model d alts p = Ok b /\
+            (b = true <-> exists axis, Permutation alts axis /\
+                          forall o, In o p -> forall k, contiguous (concat (firstn k o)) axis).
+Proof.
+  intros Hd Hnd Hc. exists (spw_decide alts p).
+  unfold is_single_peaked_pq_tree_model, is_single_peaked_ILP_model.
+  rewrite (sp_matrix_decides alts p Hnd Hc).
+  split; [destruct Hd as [->| ->]; reflexivity|]. split; [destruct Hd as [->| ->]; reflexivity|].
+  now apply spw_decide_correct.
+Qed.
+
+Lemma strict_profile_restrict S alts rs : Forall (fun r => Permutation alts r) rs ->
+  Forall (fun r => Permutation (restrict_alts S alts) r) (map (restrict_ranking S) rs).
+Proof.
+  intros H. apply Forall_forall. intros r' Hr'. apply in_map_iff in Hr'. destruct Hr' as (r & <- & Hr).
+  rewrite Forall_forall in H. apply Permutation_filter. now apply H.
+Qed.
+
+(* a refuted core refutes the whole profile (exact negatives on large inputs) *)
+Theorem sp_core_refutes S alts rs core : NoDup alts -> Forall (fun r => Permutation alts r) rs ->
+  (forall r, In r core <-> In r (map (restrict_ranking S) rs)) ->
+  sp_decide (restrict_alts S alts) core = false -> ~ SP alts rs.
+Proof.
+  intros Hnd Hc Hcore Hdec HSP. apply (sp_restrict_strict _ _ S) in HSP.
+  apply sp_decide_correct in HSP.
+  - rewrite (sp_decide_set_ext _ _ _ Hcore) in Hdec. congruence.
+  - now apply NoDup_filter.
+  - now apply strict_profile_restrict.
+Qed.
+
+Theorem spw_core_refutes S alts p core : NoDup alts -> Forall (complete_on alts) p ->
+  (forall o, In o core <-> In o (map (restrict_order S) p)) ->
+  spw_decide (restrict_alts S alts) core = false -> ~ SPw alts p.
+Proof.
+  intros Hnd Hc Hcore Hdec HSP. apply (sp_restrict _ _ S) in HSP.
+  apply spw_decide_correct in HSP.
+  - rewrite (spw_decide_set_ext _ _ _ Hcore) in Hdec. congruence.
+  - now apply NoDup_filter.
+  - apply Forall_forall. intros o' Ho'. apply in_map_iff in Ho'. destruct Ho' as (o & <- & Ho).
+    rewrite Forall_forall in Hc. apply complete_on_restrict. now apply Hc.
+Qed.
+
+(* the acceptance relation of the C03 correspondence: verdict = reference, and the axis of a positive
+   answer passes the checker  <->  the C03 statement for the pair (verdict, axis) *)
+Theorem C03_relation alts rs (verdict : bool) axis : NoDup alts -> Forall (fun r => Permutation alts r) rs ->
+  (verdict = sp_decide alts rs /\ (verdict = true -> sp_check_axis alts rs axis = true))
+  <->
+  ((verdict = true <->
+    exists ax, Permutation alts ax /\ forall r, In r rs -> forall k, contiguous (firstn k r) ax) /\
+   (verdict = true ->
+    (NoDup axis /\ forall a, In a axis <-> In a alts) /\
+    forall r, In r rs -> forall k, contiguous (firstn k r) axis)).
+Proof.
+  intros Hnd Hc. pose proof (sp_decide_correct alts rs Hnd Hc) as Hd.
+  pose proof (sp_check_axis_correct alts rs axis Hnd Hc) as Hk. unfold SP, SP_axis in *.
+  split.
+  - intros [-> H]. split; [exact Hd|]. intros Hv. apply Hk. now apply H.
+  - intros [H1 H2]. split.
+    + apply eq_true_iff_eq. rewrite H1. symmetry. exact Hd.
+    + intros Hv. apply Hk. now apply H2.
+Qed.
+
+Theorem C11_gate d alts p axis : d <> DTsoc -> d <> DTtoc ->
+  is_single_peaked_axis_model d p axis = Err TypeErr /\
+  is_single_peaked_pq_tree_model d alts p = Err TypeErr /\
+  is_single_peaked_ILP_model d alts p = Err TypeErr.
+Proof.
+  intros H1 H2. repeat split; [now apply C11_gate_axis|now apply C11_gate_pq|now apply C11_gate_ilp].
+Qed.
+
+(* boolean form of the domain predicate (for examples / computation) *)
+Definition complete_onb (alts : list N) (o : order) : bool :=
+  nodupN (concat o) && forallb (fun c => negb (is_nil c)) o
+  && forallb (fun a => memN a (concat o)) alts && forallb (fun a => memN a alts) (concat o).
+
+Lemma complete_onb_correct alts o : complete_onb alts o = true <-> complete_on alts o.
+Proof.
+  unfold complete_onb, complete_on, same_elems.
+  rewrite !andb_true_iff, nodupN_correct, !forallb_forall, Forall_forall. split.
+  - intros [[[H1 H2] H3] H4]. split; [assumption|]. split.
+    + intros c Hc E. specialize (H2 c Hc). subst. discriminate.
+    + intros a. split; intros Ha; apply memN_In; auto.
+  - intros (H1 & H2 & H3). repeat split; auto.
+    + intros c Hc. specialize (H2 c Hc). destruct c; [congruence|reflexivity].
+    + intros a Ha. apply memN_In. now apply H3.
+    + intros a Ha. apply memN_In. now apply H3.
+Qed.
+
+Lemma complete_profile_b alts p : forallb (complete_onb alts) p = true -> Forall (complete_on alts) p.
+Proof.
+  rewrite forallb_forall, Forall_forall. intros H o Ho. apply complete_onb_correct. now apply H.
+Qed.
